@@ -6,6 +6,7 @@ cd "$ROOT/harness"
 export CARGO_NET_OFFLINE=true
 CARGO_TARGET_DIR="$ROOT/harness/target-unsync" cargo build --release --offline --bins
 if [ -f src/bin/c19.rs ]; then
+  CARGO_TARGET_DIR="$ROOT/harness/target-sync" cargo build --release --offline --no-default-features --features sync --bin c19_miri || true
   CARGO_TARGET_DIR="$ROOT/harness/target-sync" cargo build --release --offline --no-default-features --features sync --bin c19
 fi
 mkdir -p "$ROOT/evidence" "$ROOT/replays"
